@@ -98,3 +98,10 @@ Proof. intros Hne HR HA. unfold zocf_partition, zocf_mode in HR. destruct facts 
   assert (HD: augment D (f :: r) <> []).
   { unfold augment. simpl. intros E. apply app_eq_nil in E as [_ E]. discriminate. }
   rewrite (infer_z_ext n _ q _ HD HR). f_equal. symmetry. apply object_accept_ext. exact HA. Qed.
+
+(* strict mode: the object of a strongly consistent base accepts every conditional of the base *)
+From Coq Require Import Permutation.
+Theorem object_accepts_strict_base n D P c : part_strict n D = Some P -> In c D -> obj_accept n P [] c = true.
+Proof. intros HP Hc. pose proof HP as HP'. apply loop_sound in HP' as [_ Hperm].
+  eapply object_accepts_finite_layers; [apply ext_of_strict; exact HP|].
+  eapply Permutation_in; [apply Permutation_sym; exact Hperm|]. apply in_map. exact Hc. Qed.
